@@ -337,3 +337,18 @@ brk("c17-version-wrap-cycle-guard-removed-new-cycle", ["C17"], (SEC, "          
 ben("c17-isinstance-tuple", ["C17"], (C, "        if not isinstance(bitval, int):\n            raise ValueError(f\"Unable to create bitfield from: {bitval}\")\n", "        if not isinstance(bitval, (int, bool)):\n            raise ValueError(f\"Unable to create bitfield from: {bitval}\")\n"))
 ben("c17-len-guard-form", ["C17"], (C, "                if index >= len(value_list):\n                    raise ValueError(f\"Incomplete list. Missing: {key}\")\n", "                if not index < len(value_list):\n                    raise ValueError(f\"Incomplete list. Missing: {key}\")\n"))
 ben("c17-embedded-or-empty", ["C17"], (C, "                if not cls._metadata.embedded:\n                    raise ValueError(f\"Unknown parameter: {k}\")\n                for item in cls._metadata.embedded:", "                if not cls._metadata.embedded:\n                    raise ValueError(f\"Unknown parameter: {k}\")\n                for item in cls._metadata.embedded or []:"))
+
+# ------------------------------------------------------------------ C18 determinism
+brk("c18-timestamp-in-manifest", ["C18"], (IO, "        suit_obj = SuitEnvelopeTagged.from_obj(data)\n        suit_obj.update_severable_digests()", "        import time\n        data.setdefault(\"_built\", int(time.time()))\n        data.pop(\"_built\")\n        suit_obj = SuitEnvelopeTagged.from_obj(data)\n        suit_obj.update_severable_digests()"))
+brk("c18-set-iteration", ["C18"], (TOPENV, "            for k in list(self._envelope[\"SUIT_Envelope_Tagged\"].keys())", "            for k in set(self._envelope[\"SUIT_Envelope_Tagged\"].keys())"))
+brk("c18-class-level-cache", ["C18"], (SEC, "    def hash(self, bstr: bytes) -> str:\n        \"\"\"Compute hash value.\"\"\"\n", "    _memo = {}\n\n    def hash(self, bstr: bytes) -> str:\n        \"\"\"Compute hash value.\"\"\"\n        if len(bstr) in self._memo:\n            return self._memo[len(bstr)]\n        self._memo[len(bstr)] = bstr[:0].hex()\n"))
+brk("c18-lru-cache", ["C18"], (M, "    @staticmethod\n    def _convert_version_part(part):", "    @staticmethod\n    @functools.lru_cache(maxsize=None)\n    def _convert_version_part(part):"), (M, "from enum import Enum\n", "from enum import Enum\nimport functools\n"))
+brk("c18-metadata-patched-in-function", ["C18"], (M, "    @classmethod\n    @log_call\n    def from_obj(cls, obj: Union[List[int], str]) -> SuitList:\n        \"\"\"Restore SUIT representation from passed object.\"\"\"\n", "    @classmethod\n    @log_call\n    def from_obj(cls, obj: Union[List[int], str]) -> SuitList:\n        \"\"\"Restore SUIT representation from passed object.\"\"\"\n        cls._metadata.children[0] = SuitInt\n"))
+brk("c18-env-dependent-create", ["C18"], (PAY, "            elif pathlib.Path.is_file(pathlib.Path(v)):", "            elif pathlib.Path.is_file(pathlib.Path(os.environ.get(\"SUIT_PAYLOAD_DIR\", \"\")) / v):"), (PAY, "import pathlib\n", "import pathlib\nimport os\n"))
+brk("c18-cwd-in-image", ["C18"], (IMG, "            combined_hex.write_hex_file(dir_name + \"/suit_installed_envelopes_\" + domain.name.lower() + \"_merged.hex\")", "            combined_hex.write_hex_file(os.path.join(os.getcwd(), dir_name) + \"/suit_installed_envelopes_\" + domain.name.lower() + \"_merged.hex\")"))
+brk("c18-mutable-default", ["C18"], (CACHE, "    def __init__(self, eb_size: int):\n        \"\"\"Initialize a CachePartition object.\"\"\"\n        self.first_slot = True\n        self.cache_data = bytes()\n        self.eb_size = eb_size\n        self.uris = []", "    def __init__(self, eb_size: int, uris=[]):\n        \"\"\"Initialize a CachePartition object.\"\"\"\n        self.first_slot = True\n        self.cache_data = bytes()\n        self.eb_size = eb_size\n        uris.append(None)\n        uris.pop()\n        self.uris = uris"))
+brk("c18-class-attr-assignments", ["C18"], (IMG, "        self._assignments = {}\n        self._base_address = base_address", "        self._base_address = base_address"), (IMG, "    _LAYOUT = []\n\n    # Default manifest role assignments", "    _LAYOUT = []\n    _assignments = {}\n\n    # Default manifest role assignments"))
+brk("c18-encryptor-stale-kw", ["C18"], (ENC, "        self._kw_alg_convert(kw_alg)\n        return self.generate_encryption_info_and_encrypted_payload(encrypted_asset, encrypted_cek, key_id)", "        if kw_alg == SuitKWAlgorithms.A256KW:\n            self._kw_alg_convert(kw_alg)\n        return self.generate_encryption_info_and_encrypted_payload(encrypted_asset, encrypted_cek, key_id)"))
+brk("c18-yaml-sort-hook", ["C18"], (IO, "            data = json.load(fh)\n        return data", "            data = json.load(fh)\n        return dict(sorted(data.items())) if len(data) > 1 else data"))
+brk("c18-id-based-key", ["C18"], (C, "                    dict_key = key.to_obj()\n                    if not isinstance(dict_key, str):\n                        dict_key = json.dumps(dict_key)", "                    dict_key = key.to_obj()\n                    if not isinstance(dict_key, str):\n                        dict_key = json.dumps(dict_key) if dict_key else str(id(key))"))
+ben("c18-local-dict-cache", ["C18"], (M, "        if isinstance(obj, str):\n            obj = [cls._convert_version_part(part) for part in obj.replace(\"-\", \".\").split(\".\")]", "        if isinstance(obj, str):\n            seen = {}\n            for part in obj.replace(\"-\", \".\").split(\".\"):\n                seen[part] = cls._convert_version_part(part)\n            obj = [cls._convert_version_part(part) for part in obj.replace(\"-\", \".\").split(\".\")]"))
